@@ -304,7 +304,6 @@ func registerTimeIntrinsics() {
 	intrinsics["(*math/rand.Rand).Float64"] = func(p *Path, th *Thread, fr *Frame, args []Value) Value { return float64(0.5) }
 }
 
-
 // ---------- hash functions as uninterpreted functions ----------
 //
 // fnv1a.AddUint32 / AddString32 on symbolic arguments are abstracted to an uninterpreted function with
@@ -450,4 +449,56 @@ func init() {
 			return nil
 		}}
 	}
+}
+
+// ---------- file system model (path -> contents) ----------
+
+func (p *Path) fs() map[string]string {
+	m, ok := p.side["fs"].(map[string]string)
+	if !ok {
+		m = map[string]string{}
+		p.side["fs"] = m
+	}
+	return m
+}
+
+func bytesToString(p *Path, s Slice) string {
+	b := make([]byte, len(s.a))
+	for i, e := range s.a {
+		b[i] = byte(p.concreteInt(e, "file byte"))
+	}
+	return string(b)
+}
+
+func stringToBytes(p *Path, s string) Slice {
+	a := make([]Value, len(s))
+	for i := 0; i < len(s); i++ {
+		a[i] = p.mkInt(types.Typ[types.Uint8], int64(s[i]))
+	}
+	return Slice{a: a}
+}
+
+func init() {
+	readFile := func(p *Path, th *Thread, fr *Frame, args []Value) Value {
+		c, ok := p.fs()[args[0].(string)]
+		if !ok {
+			return Tuple{Slice{}, mkExtErr("open " + args[0].(string) + ": no such file or directory")}
+		}
+		return Tuple{stringToBytes(p, c), Iface{}}
+	}
+	writeFile := func(p *Path, th *Thread, fr *Frame, args []Value) Value {
+		p.fs()[args[0].(string)] = bytesToString(p, args[1].(Slice))
+		return Iface{}
+	}
+	intrinsics["os.ReadFile"] = readFile
+	intrinsics["io/ioutil.ReadFile"] = readFile
+	intrinsics["os.WriteFile"] = writeFile
+	intrinsics["io/ioutil.WriteFile"] = writeFile
+	intrinsics["os.MkdirTemp"] = func(p *Path, th *Thread, fr *Frame, args []Value) Value {
+		k := p.tagCount["mkdirtemp"]
+		p.tagCount["mkdirtemp"]++
+		return Tuple{fmt.Sprintf("/modelfs/tmp%d", k), Iface{}}
+	}
+	intrinsics["os.RemoveAll"] = func(p *Path, th *Thread, fr *Frame, args []Value) Value { return Iface{} }
+	intrinsics["os.MkdirAll"] = func(p *Path, th *Thread, fr *Frame, args []Value) Value { return Iface{} }
 }
